@@ -1,0 +1,92 @@
+//go:build verif
+
+package discover
+
+import "crypto/ecdsa"
+
+// Exports for the verification harness (/verif), second part: the LIVE discovery endpoint (what happens after a
+// datagram was decoded: bonding, the pending-reply queue, the table).
+
+// VerifConn is the socket interface of the transport (a *net.UDPConn satisfies it).
+type VerifConn = conn
+
+const (
+	VerifBucketSize          = bucketSize
+	VerifNBuckets            = nBuckets
+	VerifAlpha               = alpha
+	VerifMaxBondingPingPongs = maxBondingPingPongs
+	VerifMaxFindnodeFailures = maxFindnodeFailures
+	VerifRespTimeout         = respTimeout
+	VerifExpiration          = expiration
+	VerifPingPacket          = pingPacket
+	VerifPongPacket          = pongPacket
+	VerifFindnodePacket      = findnodePacket
+	VerifNeighborsPacket     = neighborsPacket
+)
+
+// VerifMaxNeighbors is the number of entries the node puts into one neighbors datagram.
+func VerifMaxNeighbors() int { return maxNeighbors }
+
+// VerifNewUDP is ListenUDP without the opening of the socket: the transport (table, loop, read loop) over c.
+func VerifNewUDP(priv *ecdsa.PrivateKey, c VerifConn, nodeDBPath string) *Table {
+	tab, _ := newUDP(priv, c, nil, nodeDBPath)
+	return tab
+}
+
+// VerifEncodePacket is the node's own packet encoder (hash, signature, type byte, rlp of req) for ANY encodable
+// req: the caller chooses every field, e.g. a list of raw byte strings.
+func VerifEncodePacket(priv *ecdsa.PrivateKey, ptype byte, req interface{}) ([]byte, error) {
+	b, err := encodePacket(priv, ptype, req)
+	if err != nil {
+		return nil, err
+	}
+	return append([]byte{}, b...), nil
+}
+
+// VerifTableStats: number of table entries, size of the fullest bucket, and whether the table holds a nil entry,
+// the node itself or one identity twice.
+func VerifTableStats(tab *Table) (total, maxBucket int, hasNil, hasSelf, hasDup bool) {
+	tab.mutex.Lock()
+	defer tab.mutex.Unlock()
+	seen := make(map[NodeID]bool)
+	for _, b := range tab.buckets {
+		if len(b.entries) > maxBucket {
+			maxBucket = len(b.entries)
+		}
+		for _, n := range b.entries {
+			total++
+			if n == nil {
+				hasNil = true
+				continue
+			}
+			if n.ID == tab.self.ID {
+				hasSelf = true
+			}
+			if seen[n.ID] {
+				hasDup = true
+			}
+			seen[n.ID] = true
+		}
+	}
+	return
+}
+
+// VerifTableHas reports whether id is a table entry.
+func VerifTableHas(tab *Table, id NodeID) bool {
+	tab.mutex.Lock()
+	defer tab.mutex.Unlock()
+	for _, b := range tab.buckets {
+		for _, n := range b.entries {
+			if n != nil && n.ID == id {
+				return true
+			}
+		}
+	}
+	return false
+}
+
+// VerifKnownNode reports whether the node database has a record of id (= a bond exists: findnode of id is served).
+func VerifKnownNode(tab *Table, id NodeID) bool { return tab.db.node(id) != nil }
+
+// VerifFindFails is the stored number of failed findnode requests to id.
+func VerifFindFails(tab *Table, id NodeID) int { return tab.db.findFails(id) }
